@@ -110,9 +110,9 @@ def _trace(res):
 
 
 def _cfg_str(cfg):
-    return "rows=%d cols=%d grid=%s box=%s cores=%s stripes=%s mask=%s naxis=%d bitpix=%d bscale=%s" % (
+    return "rows=%d cols=%d grid=%s box=%s cores=%s stripes=%s mask=%s naxis=%d bitpix=%d bscale=%s bzero=%s" % (
         cfg["rows"], cfg["cols"], cfg["grid"], cfg["box"], cfg["cores"], cfg["nslice"], cfg["mask"], cfg["naxis"],
-        cfg["bitpix"], cfg.get("bscale"))
+        cfg["bitpix"], cfg.get("bscale"), cfg.get("bzero"))
 
 
 def _run(fn, cfg, sched, ch, **kw):
